@@ -420,17 +420,33 @@ void splinetable<Alloc>::write_fits(const std::string& filePath) const{
 	if (error != 0)
 		throw std::runtime_error(("CFITSIO failed to open "+filePath+" for writing").c_str());
 	
+	//closes the file when an exception passes through; on the success path
+	//close() is called explicitly so that an error while flushing is reported
 	struct fits_cleanup{
 		fitsfile* fits;
 		fits_cleanup(fitsfile* f):fits(f){}
 		~fits_cleanup(){
+			if(!fits)
+				return;
 			int error=0;
 			fits_close_file(fits, &error);
 			fits_report_error(stderr, error);
 		}
+		void close(){
+			fitsfile* f=fits;
+			fits=nullptr; //cfitsio releases the handle even when closing fails
+			int error=0;
+			fits_close_file(f, &error);
+			if(error!=0){
+				fits_report_error(stderr, error);
+				throw std::runtime_error("CFITSIO failed to flush and close the FITS file: Error "+std::to_string(error));
+			}
+		}
 	} cleanup(fits);
 	
 	write_fits_core(fits);
+	//most data reaches the file only now; a failure here means the file is incomplete
+	cleanup.close();
 }
 	
 template<typename Alloc>
@@ -452,13 +468,27 @@ std::pair<void*,size_t> splinetable<Alloc>::write_fits_mem() const{
 			fitsfile* fits;
 			fits_cleanup(fitsfile* f):fits(f){}
 			~fits_cleanup(){
+				if(!fits)
+					return;
 				int error=0;
 				fits_close_file(fits, &error);
 				fits_report_error(stderr, error);
 			}
+			void close(){
+				fitsfile* f=fits;
+				fits=nullptr; //cfitsio releases the handle even when closing fails
+				int error=0;
+				fits_close_file(f, &error);
+				if(error!=0){
+					fits_report_error(stderr, error);
+					throw std::runtime_error("CFITSIO failed to flush and close the FITS file: Error "+std::to_string(error));
+				}
+			}
 		} cleanup(fits);
 		
 		write_fits_core(fits);
+		//buffered data reaches the memory 'file' only now (and may fail to, if it cannot grow)
+		cleanup.close();
 	}catch(std::exception& ex){
 		throw std::runtime_error("Failed to write FITS memory 'file': \n"+std::string(ex.what()));
 	}
